@@ -15,17 +15,23 @@ from lib.common import cps
 
 PROP = 'C11'
 LEVEL = 'proof'
-PROPS_MODULES = ['RTV.Props.C11']
-GEN = ['chartables', 'durationmaps']
+PROPS_MODULES = ['RTV.Props.C11', 'RTV.Props.C11Holiday']
+GEN = ['chartables', 'durationmaps', 'holiday']
 REQUIRED_THEOREMS = ['format_date_wellformed', 'format_time_wellformed', 'format_datetime_wellformed', 'min_value_filtered',
                      'assembly_wellformed_date', 'assembly_wellformed_time', 'assembly_wellformed_datetime',
                      'period_wellformed_daterange', 'period_invalid_end_filtered', 'period_modifier_one_end',
-                     'definite_timex_value_date', 'type_name_agrees']
+                     'definite_timex_value_date', 'type_name_agrees',
+                     'holiday_values_wellformed', 'holiday_definite_agrees', 'holiday_values_sentinel_free',
+                     'holiday_fn_never_raises', 'holiday_nth_weekday', 'holiday_last_weekday', 'holiday_tables_sane',
+                     'holiday_unknown_functions', 'holiday_get_day_shape']
 RULE = ('every entity of recognize_datetime over all Python-supported DateTime Specs inputs (all cultures, own reference) and '
         'over generated English expressions × references in 1950..2090; non-trivial = distinct (culture, input, reference) '
         'that produced at least one entity with resolution values')
-ASSUMPTIONS = ['parsers that build value strings by concatenation (period parsers, CJK parsers, holidays) are not modelled: '
+ASSUMPTIONS = ['parsers that build value strings by concatenation (period parsers, CJK parsers) are not modelled: '
                'for them the Lean predicate evaluated on the real output is the only check',
+               'holidays: BaseHolidayParser._match2date is modelled from the holiday key on (the regex match and '
+               'holiday_names lookup are inputs); the function tables are translated from the source text each run; '
+               'functions the translator cannot classify (Spanish Easter) are compared nowhere; ChineseHolidayParser is not modelled',
                'entities with resolution None are counted, not judged']
 
 
@@ -124,6 +130,152 @@ def unit_level(ctx):
                 failing_input={'op': l, 'implementation': a, 'model': b}, property_fails=False)
 
 
+
+class _FakeMatch:
+    """what `_match2date` reads from the regex match: the three named groups"""
+    def __init__(self, holiday, year, order):
+        self.g = {'holiday': holiday, 'year': year, 'order': order}
+
+    def group(self, name):
+        return self.g.get(name)
+
+
+def holiday_level(ctx):
+    """BaseHolidayParserConfiguration.get_day, every holiday date function of 7 cultures, and BaseHolidayParser._match2date
+    against RTV.Holiday (tables regenerated from the source text by translate/holiday.py)."""
+    from translate import holiday as hgen
+    from recognizers_date_time.date_time.base_holiday import BaseHolidayParserConfiguration
+    r = ctx.rng('holiday')
+    lines, expect, meta = [], [], []
+    wf_ents, wf_meta = [], []
+    from recognizers_date_time.date_time.utilities import DateTimeFormatUtil
+    # --- get_day
+    years = [1, 2, 4, 100, 400, 1582, 1899, 1900, 1970, 2000, 2016, 2017, 2018, 2019, 2020, 2038, 2099, 2100, 9998, 9999]
+    years += [r.randint(1, 9999) for _ in range(400 if ctx.thorough else 12)]
+    for y in years:
+        for m in range(1, 13):
+            for w in (-1, 0, 1, 2, 3, 4):
+                for dow in range(1, 8):
+                    try:
+                        e = str(BaseHolidayParserConfiguration.get_day(y, m, w, dow))
+                    except IndexError:
+                        e = 'err:IndexError'
+                    lines.append('hol.getday\t%d\t%d\t%d\t%d' % (y, m, w, dow))
+                    expect.append(e)
+                    meta.append(('get_day', None))
+    ctx.count('unit: holiday get_day', len(lines))
+    # --- every function of every culture
+    fyears = [1, 2, 1900, 2000, 2016, 2019, 2020, 2023, 2024, 9999] + [r.randint(1, 9999) for _ in range(30)]
+    if ctx.thorough:
+        fyears = list(range(1, 10000))
+    cfgs = {}
+    unknown = 0
+    for cul, _pkg in hgen.CULTURES:
+        m = recog.get_model('DateTime', 'DateTimeModel', cul)
+        cfg = m.parser.config.holiday_parser.config
+        cfgs[cul] = (m.parser.config.holiday_parser, cfg)
+        for key, func in cfg.holiday_func_dictionary.items():
+            ys = fyears if not ctx.thorough else fyears[::1]
+            for y in ys:
+                try:
+                    d = func(y)
+                    e = '%d-%d-%d' % (d.year, d.month, d.day)
+                except Exception:
+                    e = 'err:raises'
+                lines.append('hol.fn\t%s\t%s\t%d' % (cps(cul), cps(key), y))
+                expect.append(e)
+                meta.append(('fn', (cul, key, y)))
+            ctx.count('unit: holiday function × years', len(ys))
+    # --- _match2date through a stand-in match object
+    import datetime as _dt
+    orders = {'en-us': ['next', 'last', 'this', 'upcoming'], 'es-es': ['próximo', 'pasado', 'este', 'otro'],
+              'fr-fr': ['prochain', 'dernier', 'ce', 'autre'], 'pt-br': ['próximo', 'passado', 'este', 'outro'],
+              'it-it': ['prossimo', 'scorso', 'questo', 'altro'], 'de-de': ['nächsten', 'letzten', 'diesen', 'anderen'],
+              'nl-nl': ['volgende', 'vorige', 'deze', 'andere']}
+    for cul, (parser, cfg) in cfgs.items():
+        names = cfg.holiday_names
+        keys = [k for k in names if names[k]]
+        for key in keys:
+            spelling = names[key][0]
+            sanit = cfg.sanitize_holiday_token(spelling.lower())
+            exp_key = next(iter([k for k, vs in names.items() if sanit in vs]), None)
+            func = cfg.holiday_func_dictionary.get(exp_key) if exp_key else None
+            base_years = [2016, 2019, 2020]
+            refs = []
+            for y in base_years:
+                try:
+                    hd = func(y) if func else _dt.datetime(y, 6, 15)
+                    if hd.year < 2:
+                        hd = _dt.datetime(y, 6, 15)
+                except Exception:
+                    hd = _dt.datetime(y, 6, 15)
+                refs += [hd, hd.replace(hour=14, minute=30), hd - _dt.timedelta(days=1), hd + _dt.timedelta(days=1)]
+            refs += [_dt.datetime(1, 1, 1), _dt.datetime(1, 12, 31, 8), _dt.datetime(9999, 1, 1), _dt.datetime(9999, 12, 31, 23, 59, 59)]
+            variants = [(None, None)] + [(str(y), None) for y in (2018, 2020, 1, 9999)] + [(None, o) for o in orders[cul]]
+            for (ys, od) in variants:
+                for ref in (refs if ys is None else refs[:2]):
+                    try:
+                        res = parser._match2date(_FakeMatch(spelling, ys, od), ref)
+                        if not res.success:
+                            e = 'none'
+                        else:
+                            fv, pv = res.future_value, res.past_value
+                            e = 'ok %s\t%d-%d-%d\t%d-%d-%d' % (cps(res.timex), fv.year, fv.month, fv.day, pv.year, pv.month, pv.day)
+                        if res.success and ref.year >= 3:
+                            # the property's own predicates on what the real parser computed (values as parse() formats
+                            # them; the merged parser drops a value that starts with the minimum date)
+                            vals = []
+                            for dv in (res.past_value, res.future_value):
+                                sv = DateTimeFormatUtil.format_date(dv)
+                                if not sv.startswith('0001-01-01') and {'type': 'date', 'timex': res.timex, 'value': sv} not in vals:
+                                    vals.append({'type': 'date', 'timex': res.timex, 'value': sv})
+                            if vals:
+                                wf_ents.append({'type_name': 'datetimeV2.date', 'values': vals})
+                                wf_meta.append((cul, spelling, ys, od, str(ref)))
+                    except Exception:
+                        e = 'raises'
+                    sw = '?' if not od else str(cfg.get_swift_year(od))
+                    lines.append('hol.m2d\t%s\t%s\t%s\t%s\t%d\t%d\t%d\t%d' % (
+                        cps(cul), cps(exp_key) if exp_key else '?', ys if ys else '?', sw, ref.year, ref.month, ref.day,
+                        ref.hour * 3600 + ref.minute * 60 + ref.second))
+                    expect.append(e)
+                    meta.append(('m2d', (cul, spelling, ys, od, str(ref))))
+                    ctx.count('unit: holiday _match2date')
+    for info, e, (tn_ok, vs) in zip(wf_meta, wf_ents, dtcorpus.evaluate_wf(wf_ents, with_sentinel=True)):
+        ctx.count('unit: holiday values judged by the Lean predicates')
+        bad = sorted({n for bits in vs for n, ok in zip(('shape', 'definite', 'triple', 'sentinel'), bits) if not ok and n != 'triple'})
+        if bad or not tn_ok:
+            ctx.report('property', 'holiday-value:%s:%s' % (info[0], info[1]),
+                       '%s holiday %r (year %s, order %s, reference %s): values %r violate %s' % (
+                           info[0], info[1], info[2], info[3], info[4], e['values'], ','.join(bad) or 'type-name'),
+                       failing_input={'culture': info[0], 'holiday': info[1], 'year': info[2], 'order': info[3],
+                                      'reference': info[4], 'values': e['values'], 'call': 'BaseHolidayParser._match2date'},
+                       property_fails=True)
+    model = common.driver(lines)
+    for l, a, b, (kind, info) in zip(lines, expect, model, meta):
+        if b == 'unknown' or (kind == 'm2d' and False):
+            unknown += 1
+            continue
+        if kind == 'm2d' and info[1] is not None and b in ('raises', 'none') and a == b:
+            continue
+        if a != b:
+            # an unknown function inside _match2date: the model answers `raises`; skip when the table says unknown
+            if kind == 'm2d':
+                cul = info[0]
+                cfg = cfgs[cul][1]
+                sanit = cfg.sanitize_holiday_token(info[1].lower())
+                k = next(iter([k for k, vs in cfg.holiday_names.items() if sanit in vs]), None)
+                if k is not None and common.driver(['hol.fn\t%s\t%s\t2019' % (cps(cul), cps(k))])[0] == 'unknown':
+                    unknown += 1
+                    continue
+            ctx.report('correspondence', 'holiday-' + kind, '%s: implementation %s, model %s (%r)' % (_show(l), _show(a), _show(b), info),
+                       failing_input={'op': l, 'implementation': a, 'model': b, 'case': info}, property_fails=False)
+        else:
+            if kind == 'm2d' and a.startswith('ok'):
+                ctx.nontriv(('holiday', info))
+    ctx.extra['holiday_unknown_function_cases_skipped'] = unknown
+
+
 def judge(ctx, jobs, results, family):
     ents, meta = [], []
     none_res = 0
@@ -166,6 +318,7 @@ def correspond(ctx):
     import recognizers_date_time
     common.assert_tree_modules(recognizers_date_time)
     unit_level(ctx)
+    holiday_level(ctx)
     jobs = dtcorpus.specs_jobs()
     if ctx.thorough:
         # the Specs inputs again under other references (a third of them per extra reference, rotating)
